@@ -81,6 +81,10 @@ CLAIMED = {
          'Exploration by generated search: Let/Set/SetOrLet/LetGlobal/Resolve/Context/YieldBlock at depth<=4 inside if/range/block/include interleaved with := and =; twins must render identical bytes or both fail; LetGlobal visibility judged by the model.',
          'Every body opens its scope with a template-level := before an API call is made (Let from a body without an open scope is excluded); YieldBlock is used with parameterless blocks; VarMap is non-nil.',
          'DESIGN.md section 5/C18'),
+ 'C11': ('property-based testing (rapid) of generated concurrent operation mixes under the Go race detector (-race, halt_on_error) plus a serial-equivalence oracle: every concurrent Execute must return exactly what the same call returned alone on a private identically built Set',
+         'Exploration by generated schedules-by-proxy: 4-12 goroutines with barrier start issuing GetTemplate/Parse/Execute/AddGlobal/LookupGlobal and in-memory loader edits over shared templates (first loads of the same name, struct-field cache population for a type created per case, pooled rangers, failing executions), each mix repeated 1-3 times; any race report kills the process with exit code 66 and is reported with the operation mix as replay.',
+         'The race detector judges only the interleavings that actually happened; PBT supplies many operation mixes but does not own the Go scheduler, so a race that needs a specific preemption inside a narrow window may survive (stated limit). Globals and loader edits touch only keys/files the compared templates do not depend on, or rewrite identical values.',
+         'DESIGN.md section 5/C11'),
 }
 PENDING = {}
 
